@@ -40,6 +40,8 @@ func fieldLoadOf(v ssa.Value, typ, field string) bool {
 
 func runC08(p *an.Prog, r *an.Run, tier string) {
 	checkSurfaceClosed(p, r)
+	checkExpiryWindow(p, r)
+	checkKindParsing(p, r)
 	rh := p.Method("pool", "VipnodePool", "requestHosts")
 	if rh == nil {
 		r.Undec("anchors", "requestHosts", token.NoPos, "(*VipnodePool).requestHosts not found")
@@ -1439,4 +1441,35 @@ func stripLoad(v ssa.Value) ssa.Value {
 		return u.X
 	}
 	return v
+}
+
+// checkKindParsing: a kind name the pool does not know stays unknown: ethnode.ParseNodeKind returns Unknown for it (the
+// pool stores "" for unknown kinds, which no kind-specific request matches). A default that maps unknown names to a
+// real kind hands hosts of unlisted or misspelled kinds to clients that asked for that kind explicitly.
+func checkKindParsing(p *an.Prog, r *an.Run) {
+	pk := p.Func("ethnode", "ParseNodeKind")
+	if pk == nil {
+		r.Undec("driver-filters", "ethnode.ParseNodeKind", token.NoPos, "anchor not found")
+		return
+	}
+	unk, ok := p.PkgConstInt("ethnode", "Unknown")
+	hasUnknown := false
+	n := 0
+	an.AllInstrs(pk, func(in ssa.Instruction) {
+		ret, isRet := in.(*ssa.Return)
+		if !isRet || len(ret.Results) != 1 {
+			return
+		}
+		n++
+		vals := []ssa.Value{ret.Results[0]}
+		if ph, isPhi := ret.Results[0].(*ssa.Phi); isPhi {
+			vals = ph.Edges
+		}
+		for _, v := range vals {
+			if k, isK := an.ConstInt(v); isK && ok && k == unk {
+				hasUnknown = true
+			}
+		}
+	})
+	r.Check(hasUnknown && n > 0, "driver-filters", an.FuncName(pk), pk.Pos(), "unrecognised kind names parse to Unknown", "%s never returns ethnode.Unknown: a kind name the pool does not recognise is stored as a real kind, and hosts of that unlisted kind are handed to clients that asked for it by name", an.FuncName(pk))
 }
